@@ -111,12 +111,8 @@ theorem C05_frame_minimize (cfg : Cfg) (o : Oracle) (clk : Clock) (t : Testcase)
 /-- minimize-around and minimize-balanced: every proposal and the final best keep `before`/`after` -/
 theorem C05_frame_pairs (cfg : Cfg) (o : Oracle) (clk : Clock) (t : Testcase) :
     Frame t (around cfg o clk t) ∧ Frame t (balanced cfg o clk t) := by
-  have h0 : Frame t { best := t } := ⟨⟨rfl, rfl⟩, by intro a ha; simp at ha⟩
-  refine ⟨?_, ?_⟩
-  · unfold around
-    exact pairsOuter_frame t cfg clk _ _ _ (fun cs it h => aroundPass_frame t o clk _ cs it h) _ _ _ h0
-  · unfold balanced
-    exact pairsOuter_frame t cfg clk _ _ _ (fun cs it h => balPass_frame t o clk _ cs it h) _ _ _ h0
+  exact ⟨frame_of_allT t _ (around_allT _ (frame_closed t) cfg o clk t ⟨rfl, rfl⟩),
+    frame_of_allT t _ (balanced_allT _ (frame_closed t) cfg o clk t ⟨rfl, rfl⟩)⟩
 
 /-- non-vacuity: a char-mode file with markers and a CR before the DDEND line -/
 example :
